@@ -9,6 +9,7 @@ import (
 
 	_ "verifharness/c17"
 	_ "verifharness/cond"
+	_ "verifharness/ops"
 	_ "verifharness/txn"
 )
 
